@@ -28,9 +28,12 @@ def obligations_c04(tier):
     obs = []
     for r in range(4):
         if quick:
-            obs.append(Ob(id=f'history.recipe{r}.k2', module=M, func='history', params='c0: int, c1: int',
-                          args=f'{r}, 2, c0, c1, 0, 0', pre=[f'0 <= c0 < {nmenu} and 0 <= c1 < {nmenu}'], timeout=T,
-                          group='histories', bound=f'recipe {r} + any 2 of the {nmenu} menu commands (accepted or rejected)'))
+            for half in range(2):
+                lo, hi = half * nmenu // 2, (half + 1) * nmenu // 2
+                obs.append(Ob(id=f'history.recipe{r}.k2.half{half}', module=M, func='history', params='c0: int, c1: int',
+                              args=f'{r}, 2, c0, c1, 0, 0', pre=[f'{lo} <= c0 < {hi} and 0 <= c1 < {nmenu}'], timeout=T,
+                              group='histories',
+                              bound=f'recipe {r} + any 2 of the {nmenu} menu commands (first in [{lo},{hi})), accepted or rejected'))
         else:
             for first in range(nmenu):
                 obs.append(Ob(id=f'history.recipe{r}.k3.first{first}', module=M, func='history', params='c1: int, c2: int',
@@ -49,12 +52,26 @@ def obligations_c02(tier):
     for ra in range(4):
         for rb in range(4):
             if quick:
-                obs.append(Ob(id=f'migration.A{ra}.B{rb}.k1', module=M, func='migration_reaches_target',
+                obs.append(Ob(id=f'migration.A{ra}.B{rb}.one-sided', module=M, func='migration_reaches_target',
                               params='ka: int, a0: int, kb: int, b0: int', args=f'{ra}, ka, a0, 0, {rb}, kb, b0, 0',
-                              pre=['0 <= ka <= 1 and 0 <= kb <= 1', f'0 <= a0 < {nmig} and 0 <= b0 < {nmig}',
+                              pre=['0 <= ka <= 1 and 0 <= kb <= 1 and ka + kb <= 1', f'0 <= a0 < {nmig} and 0 <= b0 < {nmig}',
                                    '(ka == 1 or a0 == 0) and (kb == 1 or b0 == 0)'], timeout=T, group='migrations',
-                              bound=f'A = recipe {ra} + at most one of {nmig} commands; B = recipe {rb} + at most one command'))
+                              bound=f'A = recipe {ra}, B = recipe {rb}, at most one extra command (out of {nmig}) on one side'))
+                if ra == rb:
+                    for chunk in range(4):
+                        lo, hi = chunk * nmig // 4, (chunk + 1) * nmig // 4
+                        obs.append(Ob(id=f'migration.A{ra}.B{rb}.both.chunk{chunk}', module=M, func='migration_reaches_target',
+                                      params='a0: int, b0: int', args=f'{ra}, 1, a0, 0, {rb}, 1, b0, 0',
+                                      pre=[f'{lo} <= a0 < {hi} and 0 <= b0 < {nmig}'], timeout=T, group='migrations',
+                                      bound=f'A = recipe {ra} + command a0 in [{lo},{hi}); B = recipe {rb} + any command'))
             else:
+                for chunk in range(8):
+                    lo, hi = chunk * nmig // 8, (chunk + 1) * nmig // 8
+                    obs.append(Ob(id=f'migration.A{ra}.B{rb}.k1.chunk{chunk}', module=M, func='migration_reaches_target',
+                                  params='ka: int, a0: int, kb: int, b0: int', args=f'{ra}, ka, a0, 0, {rb}, kb, b0, 0',
+                                  pre=['0 <= ka <= 1 and 0 <= kb <= 1', f'{lo} <= a0 < {hi} and 0 <= b0 < {nmig}',
+                                       '(ka == 1 or a0 == %d) and (kb == 1 or b0 == 0)' % lo], timeout=T, group='migrations',
+                                  bound=f'A = recipe {ra} + at most one command (a0 in [{lo},{hi})); B = recipe {rb} + at most one command'))
                 for side in ('a', 'b'):
                     for first in range(nmig):
                         if side == 'a':
@@ -86,15 +103,18 @@ def obligations_c10(tier):
         for r2 in range(4):
             if quick:
                 obs.append(Ob(id=f'path.S1_{r1}.S2_{r2}', module=M, func='path_independent', params='c1: int, c2: int',
-                              args=f'{r1}, c1, {r2}, c2, c2', pre=[f'0 <= c1 < {nmig} and 0 <= c2 < {nmig}'], timeout=T,
-                              group='chains', bound=f'empty -> (recipe {r1} + 1 command) -> (recipe {r2} + 1 command) vs direct; then -> empty'))
+                              args=f'{r1}, c1, {r2}, c2, {nmig}', pre=[f'0 <= c1 <= {nmig} and 0 <= c2 <= {nmig}', f'c1 == {nmig} or c2 == {nmig}'],
+                              timeout=T, group='chains',
+                              bound=f'empty -> S1 -> S2 vs empty -> S2, then -> empty; S1 = recipe {r1}, S2 = recipe {r2}, at most one '
+                                    f'extra command (out of {nmig}) on one of them'))
             else:
-                for first in range(nmig):
-                    obs.append(Ob(id=f'path.S1_{r1}.S2_{r2}.c2_{first}', module=M, func='path_independent', params='c1: int, d2: int',
-                                  args=f'{r1}, c1, {r2}, {first}, d2', pre=[f'0 <= c1 < {nmig} and 0 <= d2 < {nmig}'], timeout=T,
-                                  group='chains', bound=f'empty -> (recipe {r1} + 1 command) -> (recipe {r2} + command {first} + 1 command) vs direct; then -> empty'))
+                for chunk in range(8):
+                    lo, hi = chunk * (nmig + 1) // 8, (chunk + 1) * (nmig + 1) // 8
+                    obs.append(Ob(id=f'path.S1_{r1}.S2_{r2}.chunk{chunk}', module=M, func='path_independent', params='c1: int, c2: int',
+                                  args=f'{r1}, c1, {r2}, c2, {nmig}', pre=[f'{lo} <= c1 < {hi} and 0 <= c2 <= {nmig}'], timeout=T,
+                                  group='chains', bound=f'S1 = recipe {r1} + command c1 in [{lo},{hi}) ({nmig} = none), S2 = recipe {r2} + any / no command'))
     obs.append(Ob(id='twin.path', module=M, func='path_independent', params='c1: int', post='not _', expect='cex',
-                  args='1, c1, 2, 0, 0', pre=['0 <= c1 <= 3'], timeout=120, group='twin'))
+                  args=f'1, c1, 2, {nmig}, {nmig}', pre=['0 <= c1 <= 3'], timeout=120, group='twin'))
     return obs
 
 
